@@ -26,7 +26,15 @@ type subEvent struct {
 	client int
 	topic  int
 	reason error
+	// the event object itself is kept by the consumer (discipline 1: callback arguments are held results):
+	// same reports whether the object still reads as it did at delivery, scribble overwrites it on the consumer's side
+	same     func() string
+	scribble func()
 }
+
+// event names as the API spells them (fingerprints)
+var subEventName = map[string]string{"connected": "ClientConnected", "disconnected": "ClientDisconnected", "subscribed": "TopicSubscribed",
+	"unsubscribed": "TopicUnsubscribed", "added": "TopicAdded", "removed": "TopicRemoved", "drop": "DropClient"}
 
 type subMachine struct {
 	real  *subscriptionmanager.SubscriptionManager[int, int]
@@ -71,26 +79,62 @@ func init() {
 				m.real = subscriptionmanager.New(subscriptionmanager.WithMaxTopicSubscriptionsPerClient[int, int](m.limit))
 			}
 			ev := m.real.Events()
-			ev.ClientConnected.Hook(func(e *subscriptionmanager.ClientEvent[int]) {
-				m.events = append(m.events, subEvent{kind: "connected", client: e.ClientID})
-			})
-			ev.ClientDisconnected.Hook(func(e *subscriptionmanager.ClientEvent[int]) {
-				m.events = append(m.events, subEvent{kind: "disconnected", client: e.ClientID})
-			})
-			ev.TopicSubscribed.Hook(func(e *subscriptionmanager.ClientTopicEvent[int, int]) {
-				m.events = append(m.events, subEvent{kind: "subscribed", client: e.ClientID, topic: e.Topic})
-			})
-			ev.TopicUnsubscribed.Hook(func(e *subscriptionmanager.ClientTopicEvent[int, int]) {
-				m.events = append(m.events, subEvent{kind: "unsubscribed", client: e.ClientID, topic: e.Topic})
-			})
-			ev.TopicAdded.Hook(func(e *subscriptionmanager.TopicEvent[int]) {
-				m.events = append(m.events, subEvent{kind: "added", topic: e.Topic})
-			})
-			ev.TopicRemoved.Hook(func(e *subscriptionmanager.TopicEvent[int]) {
-				m.events = append(m.events, subEvent{kind: "removed", topic: e.Topic})
-			})
+			// every hook keeps the event POINTER it was given together with a copy of the pointee taken at delivery
+			clientEv := func(kind string) func(e *subscriptionmanager.ClientEvent[int]) {
+				return func(e *subscriptionmanager.ClientEvent[int]) {
+					cp := *e
+					m.events = append(m.events, subEvent{kind: kind, client: e.ClientID,
+						same: func() string {
+							if *e != cp {
+								return fmt.Sprintf("delivered as %+v, reads %+v now", cp, *e)
+							}
+							return ""
+						},
+						scribble: func() { e.ClientID = heldGarbage; cp = *e }})
+				}
+			}
+			clientTopicEv := func(kind string) func(e *subscriptionmanager.ClientTopicEvent[int, int]) {
+				return func(e *subscriptionmanager.ClientTopicEvent[int, int]) {
+					cp := *e
+					m.events = append(m.events, subEvent{kind: kind, client: e.ClientID, topic: e.Topic,
+						same: func() string {
+							if *e != cp {
+								return fmt.Sprintf("delivered as %+v, reads %+v now", cp, *e)
+							}
+							return ""
+						},
+						scribble: func() { e.ClientID, e.Topic = heldGarbage, heldGarbage; cp = *e }})
+				}
+			}
+			topicEv := func(kind string) func(e *subscriptionmanager.TopicEvent[int]) {
+				return func(e *subscriptionmanager.TopicEvent[int]) {
+					cp := *e
+					m.events = append(m.events, subEvent{kind: kind, topic: e.Topic,
+						same: func() string {
+							if *e != cp {
+								return fmt.Sprintf("delivered as %+v, reads %+v now", cp, *e)
+							}
+							return ""
+						},
+						scribble: func() { e.Topic = heldGarbage; cp = *e }})
+				}
+			}
+			ev.ClientConnected.Hook(clientEv("connected"))
+			ev.ClientDisconnected.Hook(clientEv("disconnected"))
+			ev.TopicSubscribed.Hook(clientTopicEv("subscribed"))
+			ev.TopicUnsubscribed.Hook(clientTopicEv("unsubscribed"))
+			ev.TopicAdded.Hook(topicEv("added"))
+			ev.TopicRemoved.Hook(topicEv("removed"))
 			ev.DropClient.Hook(func(e *subscriptionmanager.DropClientEvent[int]) {
-				m.events = append(m.events, subEvent{kind: "drop", client: e.ClientID, reason: e.Reason})
+				cp := *e
+				m.events = append(m.events, subEvent{kind: "drop", client: e.ClientID, reason: e.Reason,
+					same: func() string {
+						if e.ClientID != cp.ClientID || e.Reason != cp.Reason {
+							return fmt.Sprintf("delivered as %+v, reads %+v now", cp, *e)
+						}
+						return ""
+					},
+					scribble: func() { e.ClientID, e.Reason = heldGarbage, nil; cp = *e }})
 			})
 			if strings.Contains(cfg, "preconnected") {
 				// every client starts connected (checked like any other step)
@@ -205,6 +249,27 @@ func (m *subMachine) step(x *hx, o op) {
 	}
 	if !x.ok() {
 		return
+	}
+	// ---- the event objects are held by the consumer: after the triggering call returned each of them must still read as delivered
+	// (one object reused for several events of a call shows the last event in all of them); they stay held over the following
+	// steps and a share of them is overwritten on the consumer's side (held.go)
+	perKind := map[string]int{}
+	for _, e := range m.events {
+		perKind[e.kind]++
+		if msg := e.same(); msg != "" {
+			x.fail(subEventName[e.kind]+"-held-event-changed", "the %s event object kept by its consumer changed before %s returned: %s (events of this step as delivered: %s)", subEventName[e.kind], o.N, msg, m.evString())
+			return
+		}
+	}
+	for k, n := range perKind {
+		if n >= 2 {
+			x.note("held_events_of_one_kind_in_one_call")
+			x.mark("submgr_multi_event_kinds", k)
+		}
+	}
+	for _, e := range m.events {
+		e := e
+		holdCustom(x, subEventName[e.kind]+"-event", e.same, func(int) { e.scribble() })
 	}
 	// ---- readers
 	_, opClientConn := m.clients[c]
